@@ -1,6 +1,8 @@
 (** extraction entry point for the C31 correspondence check and judges *)
 From Coq Require Import ZArith List Bool Arith.
-From ErgV Require Import Common.Sx Path.Model Path.Spec.
+(* fully qualified names, and a space before the final period: lib/vplib.py finds the .vo files this file
+   needs by scanning for the qualified module names *)
+Require Import ErgV.Common.Sx ErgV.Path.Model ErgV.Path.Spec .
 Import ListNotations.
 Open Scope Z_scope.
 
